@@ -694,7 +694,10 @@ def report_read(prop, tier, res, cases, stats, t0, known, level, rule, nontrivia
     write_evidence(prop, tier, level, cov, time.time() - t0, len(viol),
                    ["TLC and the CommunityModules Json/IOUtils overrides",
                     "the TLA+ transcription of the ISO layouts and semantics (spec/Wire*.tla, Iso.tla, SampleTable.tla, Frag.tla, Meta.tla)",
-                    "input files are rendered by the specification (Movie.tla), not by Rust code; the harness only records"])
+                    "input files are rendered by the specification (Movie.tla), not by Rust code; the harness only records"]
+                   + (["every track fragment carries at most one run (Frag!TrafInDomain: ntrun = 1): the library keeps only the last run "
+                       "of a traf (TrafBox.trun is an Option), so track fragments with several runs are outside what this check decides"]
+                      if prop == "C09" else []))
     finish(prop, viol, kn)
 
 
